@@ -90,6 +90,11 @@ def _programs() -> dict[str, dict[str, Any]]:
     P["cond_scan"] = {"fn": lambda x: lax.cond(jnp.sum(x) > 0, lambda v: lax.scan(lambda c, r: (c + r, c * r), jnp.zeros((3,), v.dtype), v)[1], lambda v: v * 2, x), "specs": [(2, 3)]}
     P["double"] = {"fn": lambda x: jnp.exp(x) * 0.1, "specs": [(2, 3)], "kw": {"enable_double_precision": True}}
     P["nchw"] = {"fn": lambda x: jnp.mean(x, axis=(1, 2), keepdims=True) + x, "specs": [(2, 4, 4, 3)], "kw": {"inputs_as_nchw": [0], "outputs_as_nchw": [0]}}
+    inh, inh_ln, ovr, plain_sub = (c(nnx.Rngs(3)) for c in fnmods.C13_USER_CLASSES)
+    P["inherited_call_linear"] = {"fn": lambda x: jnp.tanh(inh(x)), "specs": [("B", 3)], "pytree": lambda: jax.tree_util.tree_leaves(nnx.state(inh))}
+    P["inherited_call_layernorm"] = {"fn": lambda x: inh_ln(x) + 1.0, "specs": [("B", 3)]}
+    P["overriding_call_linear"] = {"fn": lambda x: ovr(x) - 1.0, "specs": [("B", 3)]}
+    P["plain_subclass_linear"] = {"fn": lambda x: plain_sub(x) * inh(x), "specs": [("B", 3)]}
     for p in P.values():
         shp = tuple(3 if isinstance(d, str) else d for d in p["specs"][0])
         p["x"] = np.random.default_rng(7).standard_normal(shp).astype(np.float32)
@@ -116,6 +121,45 @@ def _eager(fn, x):
     return [np.asarray(l) for l in jax.tree_util.tree_leaves(jax.device_get(fn(x)))]
 
 
+def _prims(fn, x) -> list[str]:
+    """Sorted primitive names of the callable's eager jaxpr (what JAX itself traces, outside conversion)."""
+    import jax
+
+    def walk(jaxpr, out):
+        for e in jaxpr.eqns:
+            out.append(e.primitive.name)
+            for v in e.params.values():
+                for sub in (v if isinstance(v, (list, tuple)) else [v]):
+                    inner = getattr(sub, "jaxpr", None)
+                    if inner is not None and hasattr(inner, "eqns"):
+                        walk(inner, out)
+                    elif hasattr(sub, "eqns"):
+                        walk(sub, out)
+        return out
+
+    return sorted(walk(jax.make_jaxpr(fn)(x).jaxpr, []))
+
+
+def _user_class_snapshot() -> dict[str, Any]:
+    """Attribute resolution of the user's classes."""
+    import inspect
+
+    from vlib import fnmods
+
+    snap: dict[str, Any] = {}
+    for cls in fnmods.C13_USER_CLASSES:
+        for name in dir(cls):
+            if name.startswith("__") and name not in ("__call__", "__init__"):
+                continue
+            try:
+                # the raw object found along the MRO ("resolves to the same object"); an own
+                # __dict__ entry holding the very object that used to be inherited is not a change
+                snap[f"{cls.__name__}.{name}"] = id(inspect.getattr_static(cls, name))
+            except Exception:  # noqa: BLE001
+                pass
+    return snap
+
+
 def _warm() -> None:
     """State recorded before the first conversion of this process."""
     if "baseline" in _S:
@@ -135,6 +179,8 @@ def _warm() -> None:
             continue
         expected[name] = _eager(p["fn"], p["x"])
     _S["expected"] = expected
+    _S["jaxpr_prims"] = {name: _prims(P[name]["fn"], P[name]["x"]) for name in expected}
+    _S["user_classes"] = _user_class_snapshot()
     _S["pytrees"] = {n: [np.array(l) for l in p["pytree"]()] for n, p in P.items() if "pytree" in p}
     _S["probe_before_expected"] = np.asarray(pr["before"](pr["x"]))
     # natural churn of plain JAX work
@@ -309,7 +355,7 @@ def _trace_raisers(exc: str | None = None) -> dict[str, Any]:
 
 def enumerate_cases(tier: str, seed: int) -> list[dict[str, Any]]:
     cases: list[dict[str, Any]] = []
-    progs = ["jnp", "nnx", "linen", "eqx", "onnx_function", "jit", "loop", "cond_scan", "double", "nchw"]
+    progs = ["jnp", "nnx", "linen", "eqx", "onnx_function", "jit", "loop", "cond_scan", "double", "nchw", "inherited_call_linear", "inherited_call_layernorm", "overriding_call_linear", "plain_subclass_linear"]
     reps = 2 if tier == "quick" else 6
     for r in range(reps):
         for p in progs:
@@ -395,6 +441,22 @@ def _monitors(case_key: str, prog: str | None, rec: dict[str, Any]) -> None:
         except Exception as exc:  # noqa: BLE001
             bad("behaviour", "probe", f"eager:{name}", f"eager call of the {name} callable now raises {type(exc).__name__}: {str(exc)[:150]}")
         rec["obs"]["eager_probes"] = rec["obs"].get("eager_probes", 0) + 1
+        try:
+            now_prims = _prims(P[name]["fn"], P[name]["x"])
+            if now_prims != _S["jaxpr_prims"][name]:
+                extra = sorted(set(now_prims) - set(_S["jaxpr_prims"][name]))
+                bad("behaviour", "eager_jaxpr", f"eager:{name}", f"JAX traces the {name} callable differently outside conversion (new primitives: {extra[:5]})")
+                _S["jaxpr_prims"][name] = now_prims
+            rec["obs"]["eager_jaxprs_compared"] = rec["obs"].get("eager_jaxprs_compared", 0) + 1
+        except Exception as exc:  # noqa: BLE001
+            bad("behaviour", "eager_jaxpr", f"eager:{name}", f"tracing the {name} callable outside conversion now raises {type(exc).__name__}: {str(exc)[:150]}")
+    # 6. the user's own classes resolve their attributes as before
+    ucs = _user_class_snapshot()
+    diffs = [k for k in sorted(set(ucs) | set(_S["user_classes"])) if ucs.get(k) != _S["user_classes"].get(k)]
+    rec["obs"]["user_class_attributes_compared"] = len(ucs)
+    if diffs:
+        bad("user_class", "attribute_changed", diffs[0].split(".")[0], "user class attributes changed: " + ", ".join(diffs[:5]))
+        _S["user_classes"] = ucs
     pr = _jit_probes()
     try:
         if not np.allclose(np.asarray(pr["before"](pr["x"])), _S["probe_before_expected"], rtol=1e-6):
